@@ -1325,25 +1325,25 @@ Proof.
   - intro q. apply (final_view fs A ch ops); auto.
 Qed.
 
-(* the candidate fix: full statement *)
-Lemma upload_spec_fixed cwd fs nm ch dst wi chc :
+(* Client.upload: full statement *)
+Lemma upload_spec_view cwd fs nm ch dst wi chc :
   let A := resolve cwd (final_destination nm dst wi) in
   lookup fs cwd = Some (Dir chc) ->
   wf_tree (Dir ch) ->
   compat fs A (Dir ch) ->
-  exists fs', upload_fixed cwd fs nm (Dir ch) dst wi = Ok fs' /\
+  exists fs', upload cwd fs nm (Dir ch) dst wi = Ok fs' /\
               forall q, look fs' q = placed fs A (Dir ch) q.
 Proof. intros A. apply (upload_gen_dir_spec true). reflexivity. Qed.
 
-(* the code as it is: right exactly when the children's anchor cwd/<last component> is the destination *)
-Lemma upload_dir_spec_partial cwd fs nm ch dst wi chc :
+(* HISTORICAL, the code before the fix of F1: right exactly when the children's anchor cwd/<last component> is the destination *)
+Lemma upload_old_spec_partial cwd fs nm ch dst wi chc :
   let dst' := final_destination nm dst wi in
   let A := resolve cwd dst' in
   resolve cwd (bug_anchor wi dst' nm) = A ->
   lookup fs cwd = Some (Dir chc) ->
   wf_tree (Dir ch) ->
   compat fs A (Dir ch) ->
-  exists fs', upload cwd fs nm (Dir ch) dst wi = Ok fs' /\
+  exists fs', upload_old cwd fs nm (Dir ch) dst wi = Ok fs' /\
               forall q, look fs' q = placed fs A (Dir ch) q.
 Proof. intros dst' A. apply (upload_gen_dir_spec false). Qed.
 
@@ -1668,15 +1668,15 @@ Definition n_a : name := [97].
        upload("foo", "x/y", write_into=True) fills /y *)
 Definition w_src : tree := Dir [(n_a, File [1])].
 
-Lemma upload_dir_refuted :
+Lemma upload_old_witnesses :
   (exists cwd fs nm src dst wi r,
-      upload cwd fs nm src dst wi = Ok r /\
+      upload_old cwd fs nm src dst wi = Ok r /\
       r <> graft fs (resolve cwd (final_destination nm dst wi)) src /\
       look r (resolve cwd (final_destination nm dst wi) ++ [n_a]) = None /\
       look r [n_foo; n_a] = Some (EFile [1]) /\ dst = mkp false [n_x] /\ wi = false)
   /\
   (exists cwd fs nm src dst wi r,
-      upload cwd fs nm src dst wi = Ok r /\
+      upload_old cwd fs nm src dst wi = Ok r /\
       r <> graft fs (resolve cwd (final_destination nm dst wi)) src /\
       look r (resolve cwd (final_destination nm dst wi) ++ [n_a]) = None /\
       look r [n_y; n_a] = Some (EFile [1]) /\ dst = mkp false [n_x; n_y] /\ wi = true).
@@ -1713,24 +1713,24 @@ Qed.
 Lemma upload_anchor_fixed wi dst' nm : upload_anchor true wi dst' nm = dst'.
 Proof. reflexivity. Qed.
 
-Lemma upload_spec_fixed_full cwd fs nm ch dst wi chc :
+Lemma upload_spec cwd fs nm ch dst wi chc :
   let A := resolve cwd (final_destination nm dst wi) in
   lookup fs cwd = Some (Dir chc) ->
   wf_tree (Dir ch) ->
   compat fs A (Dir ch) ->
-  exists fs', upload_fixed cwd fs nm (Dir ch) dst wi = Ok fs' /\
+  exists fs', upload cwd fs nm (Dir ch) dst wi = Ok fs' /\
               (forall q, look fs' q = look (graft fs A (Dir ch)) q) /\
               (forall q, look fs' q = placed fs A (Dir ch) q).
 Proof. intros A. apply (upload_gen_dir_spec_full true). reflexivity. Qed.
 
-Lemma upload_dir_spec_partial_full cwd fs nm ch dst wi chc :
+Lemma upload_old_spec_partial_full cwd fs nm ch dst wi chc :
   let dst' := final_destination nm dst wi in
   let A := resolve cwd dst' in
   resolve cwd (bug_anchor wi dst' nm) = A ->
   lookup fs cwd = Some (Dir chc) ->
   wf_tree (Dir ch) ->
   compat fs A (Dir ch) ->
-  exists fs', upload cwd fs nm (Dir ch) dst wi = Ok fs' /\
+  exists fs', upload_old cwd fs nm (Dir ch) dst wi = Ok fs' /\
               (forall q, look fs' q = look (graft fs A (Dir ch)) q) /\
               (forall q, look fs' q = placed fs A (Dir ch) q).
 Proof. intros dst' A. apply (upload_gen_dir_spec_full false). Qed.
@@ -1766,21 +1766,19 @@ Proof.
 Qed.
 
 (* non-vacuity: a fresh destination x/y under cwd /w, a source with an empty directory, an empty file and
-   equal names on two levels; the anchor hypothesis of the as-found code is satisfiable too *)
+   equal names on two levels *)
 Lemma hypotheses_satisfiable :
   let fs := Dir [([119], Dir [([111], File [1])])] in
   let src := [(n_a, Dir [(n_a, File []); (n_x, Dir [])]); (n_x, File [7])] in
   lookup fs [[119]] = Some (Dir [([111], File [1])]) /\
   wf_tree (Dir src) /\
   compat fs (resolve [[119]] (final_destination n_foo (mkp false [n_x; n_y]) false)) (Dir src) /\
-  upload_fixed [[119]] fs n_foo (Dir src) (mkp false [n_x; n_y]) false
-  = Ok (graft fs [[119]; n_x; n_y; n_foo] (Dir src)) /\
-  (forall fixed, resolve [[119]] (upload_anchor fixed true (final_destination n_foo (mkp false [n_x]) true) n_foo)
-                 = resolve [[119]] (final_destination n_foo (mkp false [n_x]) true)).
+  upload [[119]] fs n_foo (Dir src) (mkp false [n_x; n_y]) false
+  = Ok (graft fs [[119]; n_x; n_y; n_foo] (Dir src)).
 Proof.
   cbv zeta. split; [reflexivity|]. split.
   - simpl. repeat (split || constructor); simpl; intuition discriminate.
-  - split; [|split; [vm_compute; reflexivity|intros [|]; reflexivity]].
+  - split; [|vm_compute; reflexivity].
     apply compat_fresh; [|reflexivity].
     intros q P c. apply is_prefix_true in P as [r P].
     destruct q as [|q1 [|q2 [|q3 [|q4 [|q5 q]]]]]; simpl in P; inversion P; subst; vm_compute; discriminate.
@@ -1865,7 +1863,7 @@ Qed.
 
 (* consequence: with the code as found, a child [n] of the source is absent from the documented place
    A/n whenever that path was free and is not on the way to / below the anchor *)
-Lemma upload_dir_child_misplaced cwd fs nm ch dst wi chc n t :
+Lemma upload_old_child_misplaced cwd fs nm ch dst wi chc n t :
   let dst' := final_destination nm dst wi in
   let A := resolve cwd dst' in
   let A' := resolve cwd (bug_anchor wi dst' nm) in
@@ -1877,7 +1875,7 @@ Lemma upload_dir_child_misplaced cwd fs nm ch dst wi chc n t :
   look fs (A ++ [n]) = None ->
   is_prefix A' (A ++ [n]) = false ->
   is_prefix (A ++ [n]) A' = false ->
-  exists fs', upload cwd fs nm (Dir ch) dst wi = Ok fs' /\
+  exists fs', upload_old cwd fs nm (Dir ch) dst wi = Ok fs' /\
               look fs' (A ++ [n]) = None /\
               placed fs A (Dir ch) (A ++ [n]) = Some (entry_of t) /\
               look fs' (A' ++ [n]) = Some (entry_of t).
@@ -1898,8 +1896,8 @@ Proof.
   - rewrite V. unfold placed. rewrite strip_prefix_app, LS. reflexivity.
 Qed.
 
-(* non-vacuity of upload_dir_child_misplaced: the first witness of upload_dir_refuted *)
-Lemma child_misplaced_satisfiable :
+(* non-vacuity of upload_old_child_misplaced: the first witness of upload_old_witnesses *)
+Lemma upload_old_child_misplaced_satisfiable :
   let fs := Dir [] in
   let ch := [(n_a, File [1])] in
   let dst' := final_destination n_foo (mkp false [n_x]) false in
